@@ -377,6 +377,9 @@ class Explorer:
         kwargs = {}
         for k in node.keywords:
             if k.arg is None:
+                if ast.unparse(node.func) in self.c.calls:
+                    kwargs["**"] = run.ev(k.value, fr)        # handed to the sidecar's call mapping as one mapping value
+                    continue
                 raise EngineError(f"**kwargs call (line {node.lineno})")
             kwargs[k.arg] = run.ev(k.value, fr)
         return args, kwargs
